@@ -11,7 +11,7 @@ import time
 
 VERIF = os.path.dirname(os.path.dirname(os.path.abspath(__file__)))
 BUILD = os.path.join(VERIF, 'build')
-REPO = '/repo'
+REPO = os.environ.get('VERIF_REPO') or '/repo'
 NPROC = os.cpu_count() or 4
 
 TRUSTED_BASE = [
